@@ -105,6 +105,40 @@ def check(ctx):
             if (func, "O5", flow) not in seen:
                 seen.add((func, "O5", flow))
                 ctx.require(flow, "C05.O5", f"{func}: loop delay armed from control_loop_wait_time ({v!r})", f"{func}(): the NotifierDelay of the mode loop is armed at {v!r}, which does not depend on control_loop_wait_time", site=("magicbot/magicrobot.py", 0, func), key=f"C05.O5|{func}")
+    # ---- O3 component order = order of the type-hint loop
+    ctx.rule("C05.O3", "the component list is the creations of the type-hint loop, in loop order")
+    info2, cpaths = rr.create_paths(ctx)
+    ctx.add("paths", len(cpaths))
+    comp_field = None
+    for func, w, per, pi in res:
+        if pi.roles.get("comp"):
+            comp_field = pi.roles["comp"]
+    bad = set()
+    nchk = 0
+    for p in cpaths:
+        if p.outcome != "return":
+            continue
+        lst = p.value.fields.get(comp_field)
+        created = [e[1] for e in rr.create_events(p) if e[0] == "create"]
+        items = getattr(lst, "items", None)
+        if items is None:
+            bad.add(f"after _create_components the component list robot.{comp_field} is {lst!r}, not the list of created components")
+            continue
+        got = []
+        for it_ in items:
+            c = it_[1] if isinstance(it_, tuple) and len(it_) == 2 else None
+            m = re.match(r"annotated_type#(\d+)\(", getattr(c, "path", "") or "")
+            nm = it_[0] if isinstance(it_, tuple) else None
+            got.append((int(m.group(1)) if m else None, getattr(nm, "name", None)))
+        want = [(c, f"attr#{c}") for c in created]
+        nchk += 1
+        if got != want:
+            bad.add(f"the component list holds (creation index, name) {got} but the components were created in the order {want}: execute()/on_enable()/on_disable() would not run in declaration order")
+    for b in sorted(bad):
+        ctx.fail("C05.O3", b, site=("magicbot/magicrobot.py", 0, "MagicRobot._create_components"), key=f"C05.O3|{b[:40]}")
+    if not bad:
+        ctx.ok("C05.O3", f"component list == creations in type-hint order on {nchk} start-up paths")
+    ctx.floor("start-up paths checked for component order", nchk, 100)
     ctx.sample({"function": res[0][0], "tokens": [rr.short(t) for t in res[-1][3].tokens if rr.key(t)][:30]})
 
 
